@@ -54,6 +54,11 @@ add("C17", "exploration",
     "bytearray may come back as bytes; frames limited to what parquet round-trips; fake dbutils for DBFS",
     "runtime monitoring: recording proxies on codec instances + raw-byte inspection of blob files", "E4-store")
 
+add("C16", "exploration",
+    "Monitor of values and execution logs across processes: each of the 25 internal/data directory form combinations (absolute, relative, trailing slash, nested missing, symlinked parent) x cache_objects settings is configured in process A (keep, load, chdir, load, re-keep), read and re-kept in process B (other cwd, absolute paths) and process C (same spelling) with an empty execution log required; two-view scripts check blob sharing and path independence. Held on the configurations observed.",
+    "one local file system with symlink support; forked children of a pristine interpreter stand for fresh processes",
+    "runtime monitoring: cross-process value + execution-log monitor over store configurations", "E4-store")
+
 NOT_YET = {}
 
 
